@@ -741,9 +741,9 @@ def createClassString (env : Env) : Nat → Class → String → Bool → G Stri
     let (methodText, methodNames) ← createClassMethodString env c.methods inner
     -- own attributes, methods and (public) inner classes hide inherited members of the same name
     let alreadyDefined := unionSet (unionSet attrNames methodNames) ((c.classes.filter (·.isPublic)).map (·.name))
-    let (superInfo, superMethodsText, nNames) ← (if !c.superclasses.isEmpty && !c.isAbstract then do
+    let (superInfo, superMethodsText, nNames) ← (if !c.renderedSupers.isEmpty && !c.isAbstract then do
         let (names, text) ← superclassesG env
-          (fun sc => createInternalClassString env fuel sc inner alreadyDefined) c.superclasses
+          (fun sc => createInternalClassString env fuel sc inner alreadyDefined) c.renderedSupers
         pure (if names.isEmpty then "" else " sub " ++ joinWith ", " names, text, names.length)
       else pure ("", "", 0) : G (String × String × Nat))
     if nNames > 1 then addTodo "multiple_inheritance"
